@@ -88,6 +88,8 @@ BASES = {
     "B5": b"abcde",
     "BL": ("cyc", 0x10005, 1),  # 65541 bytes: offsets and sizes that need 2 and 3 bytes
     "BA": ("cyc", 0x10001, 3),  # 65537 bytes: base of the copy-amplification family
+    "B1": b"z",
+    "BK": ("cyc", 0x10000, 2),  # exactly 64 KiB: the largest base a size-0 copy from offset 0 fits in exactly
 }
 _BASE = {}
 
@@ -271,6 +273,59 @@ def structured_copy(cmds, values):
                 out.append(("insert-then-copy", bname, hdr + V(size + 1) + b"\x01x" + op))
                 out.append(("insert-then-copy-full", bname, hdr + V(1) + b"\x01x" + op))
     return out
+
+
+WIDTH_VALUES = (0x00, 0x01, 0x7F, 0x80, 0xFF)
+WIDTH_BASES = ("B0", "B1", "BK", "BA")  # 0, 1, 0x10000, 0x10001 bytes
+
+
+def copy_width_ops(cmd):
+    """Copy instructions at the width boundaries of their fields: for the offset/size bytes selected
+    by `cmd`, every background (offset bytes all 00 or all ff) x (size bytes all 00 or all ff), and on
+    top of each background every single present byte set to each of WIDTH_VALUES.  Reaches offsets
+    and offset+size sums around 2^8, 2^16, 2^24, 2^31 and 2^32 and sizes up to 2^24-1.
+    -> sorted list of (instruction bytes, offset, size)."""
+    sel = [i for i in range(7) if cmd & (1 << i)]
+    seen = {}
+    for off_bg in (0x00, 0xFF):
+        for size_bg in (0x00, 0xFF):
+            bg = [off_bg if i < 4 else size_bg for i in sel]
+            variants = [bg]
+            for k in range(len(sel)):
+                for v in WIDTH_VALUES:
+                    variants.append(bg[:k] + [v] + bg[k + 1:])
+            for vals in variants:
+                off = size = 0
+                for i, v in zip(sel, vals):
+                    if i < 4:
+                        off |= v << (8 * i)
+                    else:
+                        size |= v << (8 * (i - 4))
+                seen[bytes([cmd]) + bytes(vals)] = (off, size or 0x10000)
+    return [(op,) + seen[op] for op in sorted(seen)]
+
+
+def structured_copy_widths(cmds):
+    """copy_width_ops x bases of 0, 1, 0x10000 and 0x10001 bytes x {only instruction, before / after a
+    one-byte insert} x declared size {consistent, one less, one more; and "insert only", which makes the
+    copy a trailing instruction that no longer fits}."""
+    out = []
+    for bname in WIDTH_BASES:
+        hdr = V(spec_len(BASES[bname]))
+        for cmd in cmds:
+            for op, off, size in copy_width_ops(cmd):
+                out.append(("width-alone", bname, hdr + V(size) + op))
+                out.append(("width-alone-short", bname, hdr + V(size - 1) + op))
+                out.append(("width-alone-long", bname, hdr + V(size + 1) + op))
+                out.append(("width-then-insert", bname, hdr + V(size + 1) + op + b"\x01x"))
+                out.append(("width-then-insert-short", bname, hdr + V(size) + op + b"\x01x"))
+                out.append(("width-insert-then", bname, hdr + V(size + 1) + b"\x01x" + op))
+                out.append(("width-insert-then-full", bname, hdr + V(1) + b"\x01x" + op))
+    return out
+
+
+def copy_width_count():
+    return sum(len(copy_width_ops(cmd)) for cmd in range(0x80, 0x100)) * len(WIDTH_BASES) * 7
 
 
 def _mut_seeds():
